@@ -139,6 +139,9 @@ def run_case(spec):
   d_pre, x_pre, y_pre = totals(exp, frame, 'response', (0,))
   d_an, x_an, y_an = totals(exp, frame, 'response', analysed)
   ref = tbrref.Ref(x_pre, y_pre, x_an, y_an)
+  if ref.zero_resid or ref.degenerate:
+    return {'nontrivial': False, 'fp': util.fp(desc), 'classes': ['zero-residual-variance'], 'counters': {'zero_variance_inputs': 1},
+            'violations': [], 'sample': None}
   kappa = 1.0 + (ref.xbar / max(float(np.std(x_pre)), 1e-300)) ** 2
   rt = 1e-9 + 2e-15 * kappa
   vol = float(np.abs(y_an).sum() + np.abs(y_pre).mean() * len(y_an))
